@@ -682,8 +682,8 @@ func isFailEdge(fail []an.CtrlEdge, from, to *ssa.BasicBlock) bool {
 // each (keyed by function and sliced value).
 var sliceBoundsByConstruction = map[string]string{
 	"(*internal/engine.matcherCompiler).compileSliceDots|c.metavars": "seen was len(c.metavars) at an earlier point and c.metavars only grows (append-to-self)",
-	"(*internal/parse/section.programSplitter).next|p.content":        "startOffset is set from offset at the start of the token and offset only moves forward (C08-R1 offset-forward)",
-	"internal/pgo/augment.rewrite|src":                                "augmentations are sorted by Start before the loop and do not overlap; lastOffset is the End of the previous one",
+	"(*internal/parse/section.programSplitter).next|p.content":       "startOffset is set from offset at the start of the token and offset only moves forward (C08-R1 offset-forward)",
+	"internal/pgo/augment.rewrite|src":                               "augmentations are sorted by Start before the loop and do not overlap; lastOffset is the End of the previous one",
 }
 
 func c08SliceBounds(r *an.Run) {
@@ -1286,7 +1286,9 @@ func c10ParserFillsGuards(r *an.Run, f *ssa.Function, al *ssa.Alloc) {
 					})
 				})
 			case "Imports":
-				impOK = loadsFieldOf(st.Val, "Imports", func(x ssa.Value) bool { return an.IsNamed(x.Type().Underlying().(*types.Pointer).Elem(), "go/ast", "File") })
+				impOK = loadsFieldOf(st.Val, "Imports", func(x ssa.Value) bool {
+					return an.IsNamed(x.Type().Underlying().(*types.Pointer).Elem(), "go/ast", "File")
+				})
 			}
 		}
 	}
@@ -1450,4 +1452,153 @@ func sameLoopElement(a, b ssa.Value) bool {
 	}
 	ba, bb := base(a), base(b)
 	return ba != nil && ba == bb
+}
+
+// ---------------------------------------------------------------------------
+// splitPatch: the two versions by role, not by the name of a local
+
+func holdsBuffer(t types.Type) bool {
+	if p, ok := t.Underlying().(*types.Pointer); ok {
+		t = p.Elem()
+	}
+	if an.IsNamed(t, "bytes", "Buffer") {
+		return true
+	}
+	if st, ok := t.Underlying().(*types.Struct); ok {
+		for i := 0; i < st.NumFields(); i++ {
+			if an.IsNamed(st.Field(i).Type(), "bytes", "Buffer") {
+				return true
+			}
+		}
+	}
+	return false
+}
+
+// splitVersionRoots returns the local variables of splitPatch that hold the
+// text of the first result (the '-' version) and of the second result (the
+// '+' version): the buffer-holding locals the respective result derives from.
+func splitVersionRoots(f *ssa.Function) (minus, plus *ssa.Alloc) {
+	sets := [2]map[*ssa.Alloc]bool{{}, {}}
+	for _, ret := range an.Returns(f) {
+		if len(ret.Results) != 2 {
+			continue
+		}
+		for k := 0; k < 2; k++ {
+			for v := range sliceAcross(ret.Results[k]) {
+				if a, ok := v.(*ssa.Alloc); ok && a.Parent() == f && holdsBuffer(a.Type()) {
+					sets[k][a] = true
+				}
+			}
+		}
+	}
+	pick := func(k int) *ssa.Alloc {
+		var out *ssa.Alloc
+		for a := range sets[k] {
+			if sets[1-k][a] {
+				continue
+			}
+			if out != nil {
+				return nil
+			}
+			out = a
+		}
+		return out
+	}
+	return pick(0), pick(1)
+}
+
+// rootAlloc returns the local variable v's address / value path starts at.
+func rootAlloc(v ssa.Value) *ssa.Alloc {
+	root := an.Root(an.Unwrap(v))
+	for steps := 0; steps < 8; steps++ {
+		if u, ok := root.(*ssa.UnOp); ok {
+			root = an.Root(u.X)
+			continue
+		}
+		break
+	}
+	a, _ := root.(*ssa.Alloc)
+	return a
+}
+
+// lengthSample describes where splitPatch samples the length of a version's
+// buffer: site is the instruction of splitPatch (the Len call itself or the
+// call to the helper that performs it), lenCall the (*bytes.Buffer).Len call,
+// pos the position value, as seen in splitPatch, that is stored next to it.
+type lengthSample struct {
+	site    ssa.Instruction
+	lenCall *ssa.Call
+	pos     ssa.Value
+}
+
+func splitLengthSample(f *ssa.Function, side *ssa.Alloc) *lengthSample {
+	pairedPos := func(lenCall *ssa.Call) ssa.Value {
+		if lenCall.Referrers() == nil {
+			return nil
+		}
+		for _, u := range *lenCall.Referrers() {
+			st, ok := u.(*ssa.Store)
+			if !ok {
+				continue
+			}
+			fa, ok := st.Addr.(*ssa.FieldAddr)
+			if !ok || fieldNameOf(fa) != "Offset" {
+				continue
+			}
+			lit, ok := fa.X.(*ssa.Alloc)
+			if !ok {
+				continue
+			}
+			for _, w := range *lit.Referrers() {
+				if fa2, ok := w.(*ssa.FieldAddr); ok && fieldNameOf(fa2) == "Pos" {
+					for _, x := range *fa2.Referrers() {
+						if st2, ok := x.(*ssa.Store); ok && st2.Addr == ssa.Value(fa2) {
+							return st2.Val
+						}
+					}
+				}
+			}
+		}
+		return nil
+	}
+	for _, c := range an.CallsTo(f, "(*bytes.Buffer).Len") {
+		if rootAlloc(c.Common().Args[0]) == side {
+			call := c.(*ssa.Call)
+			return &lengthSample{site: c, lenCall: call, pos: pairedPos(call)}
+		}
+	}
+	// through a helper that is handed (part of) the side's variable
+	for _, c := range an.Calls(f) {
+		h := an.StaticCallee(c)
+		if h == nil || !an.InModule(h) || h.Blocks == nil {
+			continue
+		}
+		argIdx := -1
+		for i, a := range c.Common().Args {
+			if rootAlloc(a) == side || an.Unwrap(a) == ssa.Value(side) {
+				argIdx = i
+			}
+		}
+		if argIdx < 0 || argIdx >= len(h.Params) {
+			continue
+		}
+		for _, lc := range an.CallsTo(h, "(*bytes.Buffer).Len") {
+			if an.Root(an.Unwrap(lc.Common().Args[0])) != ssa.Value(h.Params[argIdx]) {
+				continue
+			}
+			call := lc.(*ssa.Call)
+			ls := &lengthSample{site: c, lenCall: call}
+			if p := pairedPos(call); p != nil {
+				if prm, ok := p.(*ssa.Parameter); ok {
+					for i, hp := range h.Params {
+						if hp == prm && i < len(c.Common().Args) {
+							ls.pos = c.Common().Args[i]
+						}
+					}
+				}
+			}
+			return ls
+		}
+	}
+	return nil
 }
